@@ -7,7 +7,9 @@ oracle_c14 — line protocol (one executor at a time; every op is followed by th
   `call <id> <hash>`      id = number of calls so far; submit with a fresh cancellable context
   `fin <id> <ok|err> <v>` the running callee of call id returns                (`not-running` otherwise)
   `cancel <id>`           cancel the context of call id
-  `stop`
+  `stop`, `run` (`Run()`; `new` does NOT start the consumers)
+  `hammer <kind> <seed> <n>` → `done` (parallel stress on a fresh executor, judged by monitors only)
+  `boom <id>`             the running callee of call id panics → `crash`, and `crash` for every later line
   `slot <hash> <slots>`   → value of the regenerated `NormalizeSlotIndex` kernel (slots > 0)
 Result line of call/fin/cancel/stop: the sorted, comma-separated new events
   `start:<id>@<lane>` `end:<id>` `ret:<id>:<ok<v>|err<v>|ctx|closed|full|panic>` `exited`   (`-` when none).
@@ -72,7 +74,15 @@ def parseKind : String → Option Kind
   | "runner-call" => some .runner | "runner-delegate" => some .runner | "runner-proc" => some .runner
   | _ => none
 
-def step (st : St) (line : String) : St × String :=
+/-- the consumer of call id's lane is inside the callee of id -/
+def isRunning (x : Exec) (id : Nat) : Bool :=
+  match ownerOf x id with
+  | some i => (match x.lanes[i]? with
+    | some l => l.cons == .running id || l.cons2 == some (.running id)
+    | none => false)
+  | none => false
+
+def stepLive (st : St) (line : String) : St × String :=
   match words line with
   | ["new", k, n, c] =>
     (match parseKind k, natOf n, natOf c with
@@ -117,6 +127,31 @@ def step (st : St) (line : String) : St × String :=
     (match st with
      | some (x :: xs) => let r := applyAll (x :: xs) (fun _ => [.stop]) "-"; (some r.1, r.2)
      | _ => (st, "bad-op"))
+  | ["hammer", k, seed, n] =>
+    (match parseKind k, natOf seed, natOf n with
+     | some _, some _, some n => if n ≤ 64 then (st, "done") else (st, "bad-op")
+     | _, _, _ => (st, "bad-op"))
+  | ["run"] =>
+    (match st with
+     | some (x :: xs) => let r := applyAll (x :: xs) (fun _ => [.run]) "-"; (some r.1, r.2)
+     | _ => (st, "bad-op"))
   | _ => (st, "bad-op")
 
-def main : IO Unit := oracleMain step none
+/-- `boom <id>`: the running callee of call id panics. No executor recovers a callee's panic: the lane goroutine dies
+and with it the process — every later line answers `crash` (the harness runs such scripts in a child process). -/
+def step (st : St × Bool) (line : String) : (St × Bool) × String :=
+  if st.2 && (words line).head? != some "new" then (st, "crash")
+  else match words line with
+    | ["boom", id] =>
+      (match st.1, natOf id with
+       | some (x :: xs), some id =>
+         if id < x.next then
+           let run := (x :: xs).filter (fun y => isRunning y id)
+           if run.isEmpty then (st, "not-running")
+           else if run.length == (x :: xs).length then ((st.1, true), "crash")
+           else ((st.1, true), "{crash|not-running}")
+         else (st, "bad-op")
+       | _, _ => (st, "bad-op"))
+    | _ => let r := stepLive st.1 line; ((r.1, false), r.2)
+
+def main : IO Unit := oracleMain step (none, false)
